@@ -9,7 +9,9 @@ CHECKS = {
              level_text="Two runs of the real application over generated worlds and block histories, one with generated CheckTx / simulate / query traffic at every point between "
                         "ABCI calls; transcripts and final store dumps must be identical. Exploration: bounded histories (≤14 blocks), small worlds.",
              level_note="Trusts the chain simulator to play Tendermint faithfully (ABCI call order, block store, tx indexer), tm-db MemDB, rapid. Process-global side effects of a simulated "
-                        "upgrade are visible only if a later block depends on them."),
+                        "upgrade are visible only if a later block depends on them. A second test (TestC11Claims, same check) runs the differential on histories with relay claims and proofs "
+                        "(the C13 generator) with the traffic restricted to CheckTx / simulate of the block's own transactions before delivery and ABCI / RPC queries at any height.",
+             also=[dict(group="abci", test="TestC11Claims", quick=dict(checks=100, timeout=600), thorough=dict(checks=800, shards=8, timeout=3000))]),
 }
 
 CHECKS["C12"] = c("abci", "TestC12", dict(checks=60, timeout=600), dict(checks=500, shards=14, timeout=3000),
@@ -72,4 +74,4 @@ CHECKS["C13"] = c("abci", "TestC13", dict(checks=150, timeout=600), dict(checks=
              level_text="The real application runs a generated history twice, once while serving dispatch requests (through the application method and through the ABCI query route custom/pocketcore/dispatch at latest and past heights) and latest/historical queries between the ABCI calls; transcripts and final store "
                         "dumps must match. Histories contain the state changes that make a cached object stale (application edit/unstake/transfer, node edit/jail/unjail, claims for dispatched "
                         "sessions) and restarts that empty the node-local caches. Exploration.",
-             level_note="Relay handling itself (HandleRelay) is exercised by C34/C35; simulate/CheckTx traffic by C11. Restart points are common to both runs.")
+             level_note="Relay handling itself (HandleRelay) is exercised by C34/C35; CheckTx / simulate of the block's own transactions is part of the traffic (C11 runs the same generator restricted to CheckTx, simulate and queries). Restart points are common to both runs.")
